@@ -17,88 +17,6 @@ for _f in sorted(os.listdir(_d)):
         with open(os.path.join(_d, _f)) as _fh:
             CHECKS[_f[:-5]] = json.load(_fh)
 
-CHECKS["C04"] = dict(
-    category="proof",
-    text="Lean theorems about the script level of the model: (1) session — Runner.analyzeAll is the generic statement loop; after any "
-         "prefix of the script the session is the initial one followed by what each statement registered (first write target's "
-         "non-wildcard columns, nothing when empty), a lookup answers with the LAST registration for the table, and the next statement "
-         "is analysed with exactly that knowledge (session_invariant(_generic), session_lookup_last/none, kth_statement_sees, "
-         "later_sees_earlier), by induction on the statement list for EVERY analysis function; (2) for every well-formed graph, cycles "
-         "included, the end points of the reported column paths are exactly the (root, leaf) pairs, root != leaf, related by the "
-         "transitive closure of the edge relation (endpoints_eq_reach: DFS soundness + completeness + cycle removal); (3) "
-         "chain_composition: for two statement graphs whose only shared columns are produced-only by the first and consumed-only by "
-         "the second, the end-to-end pairs of the composed graph = R1;R2 + pairs of 1 not consumed downstream + pairs of 2 not "
-         "produced by 1 — and script_chain_composition states it for the graph Assemble.build returns for two DROP/RENAME-free, Resolved "
-         "(no multi-candidate column) statement holders (build_two: the assembler succeeds and has the nodes and column-sourced "
-         "edges of the compose; columnLineage_congr); (4) D11 witnesses through the whole model (dev_D11, dev_D11_metadata), star-expansion / unqualified-"
-         "attribution witnesses. Tied to the code by: chain shape (9) x consumer column pattern (4) x provider (3) x schema (2) fully "
-         "enumerated scripts with seeded random bodies, run through the real LineageRunner with a session tap — complete path sets, "
-         "table roles and register events vs the model (driver cmd chain), and an implementation-only oracle (script pairs == "
-         "composition of the pairs of each statement analysed alone with the session knowledge the tap saw; session hygiene)",
-    design_ref="DESIGN.md §5 C04, §6 D11",
-    note=TB + ". partial: the composition theorem is for TWO statements under explicit hypotheses on the statement holders (WF, ColOut, "
-         "Resolved, no DROP/RENAME, SharedOnlyIntermediate); that the holders Model/Walk.lean produces satisfy them, and the n-statement "
-         "generalisation, are not proved — covered by the correspondence and the implementation-only oracle. "
-         "star_expands_from_session / unqualified_attributed_from_session are proved as concrete witnesses only (they go through "
-         "Model/Walk.lean, tied by correspondence). Known finding D11.",
-    technique="Lean 4 proof (induction over the statement list; path enumeration sound/complete; relational composition) + differential "
-              "correspondence on Lean-rendered chained scripts with a session tap + implementation-only composition oracle",
-)
-
-CHECKS["C06"] = dict(
-    category="proof",
-    text="Lean theorems about Paths.pathsFrom/simplePaths/columnLineage (model of get_column_lineage over networkx.all_simple_paths, "
-         "fixed code) for EVERY graph: paths_sound, paths_complete, simple_paths_exact, column_lineage_exact (reported paths = the "
-         "duplicate-free root-to-leaf edge chains with a hop), path_is_chain, path_nodup, path_has_hop, path_starts_at_root, "
-         "path_ends_at_written_table_column, path_ends_differ; columns_only and hops_are_lineage under the explicit graph invariant "
-         "ColOut, which (with WF and KeyPay) is proved preserved by add_column_lineage, add_write_column, add_read/add_write, compose, "
-         "remove_node, remove_edge and by the assembler itself (build_wf for every script; build_colOut_partial for scripts without RENAME), so "
-         "script_paths_exact / script_paths_columns_only_partial hold for the model's combined graph of a script; resolved_single_owner / owner_part_of_identity / node_single_owner (the owner is part of a "
-         "column's key); D12 witness. Tied to the code by the ENUMERATION correspondence: Paths.columnLineage run (driver cmd "
-         "chainpaths) on the implementation's own combined graph of every analysed input must return exactly the paths "
-         "get_column_lineage returned (both argument settings). The remaining clauses (projection onto table lineage, node "
-         "retrievability by eq/hash, single owner in the graph) are evaluated by harness/monitor.py on every implementation result of "
-         "the harvested test-suite corpus (21 dialects incl. sqlparse) + 99 TPC-DS queries + C01/C02 generators + C04 chained scripts",
-    design_ref="DESIGN.md §5 C06, §6 D2, D11, D12",
-    note=TB + ". partial: ColOut through the assembler is proved without the RENAME relabelling step (build_colOut_partial); that "
-         "every holder Model/Walk.lean returns satisfies WF/ColOut is not proved (observed by the enumeration correspondence). "
-         "The projection onto table lineage (column_edge_projects of the design) is NOT proved — it depends on the "
-         "extractor model; it is checked by the monitor (implementation-only oracle), which found and records D2, D11, D26 (LATERAL "
-         "VIEW alias), D27 (RENAME leaves columns under the old table), D1p (D1 in the deprecated sqlparse analyser). 'Retrievable by "
-         "equality and hash' concerns Python object identity and is monitored, not modelled.",
-    technique="Lean 4 proof (induction on fuel / on the path, graph invariants) + direct differential of the path enumeration on "
-              "implementation graphs + invariant monitor on every result (corpus, generators, chained scripts)",
-)
-
-CHECKS["C09"] = dict(
-    category="translation_validation",
-    text="Translation validation of generated core-SQL programs, with a proved reduction. Proved in Lean (Props/C09.lean): the model of "
-         "the analyzer takes no dialect (analyze_dialect_free / run_dialect_free, definitional) and agreement of every accepting dialect "
-         "with ONE reference implies pairwise agreement (agreement_reduction, _accepting, _modulo, _masked, agreement_from_reference); "
-         "structural facts about the normalised tree shape the typed AST stands for (Model/Shape.lean: root type = dispatch type, clause "
-         "arities); the statement-type renamings the shape check allow-lists are claimed by the same extractor in the REGENERATED dispatch "
-         "table (alias_same_extractor) and impala's CTAS type by none (dev_K3_unclaimed). NOT provable: that ~30 third-party grammars turn "
-         "the text into that tree. Validated per generated statement on the real code: (a) shape correspondence - the tree the analyzer "
-         "actually received under every accepting sqlfluff dialect (tapped at Linter.parse_string), normalised, equals the Lean shape "
-         "modulo an explicit counted allow-list of per-dialect wrappers/renamings; (b) agreement - tables and the complete set of column "
-         "paths identical under every accepting dialect (8 in quick, all 28 in thorough; acceptance matrix in the evidence) and the same "
-         "TABLE lineage from dialect='non-validating'; implementation vs implementation, the model is not the oracle; (c) tsql batch "
-         "path: scripts agree under ansi, tsql, and tsql with TSQL_NO_SEMICOLON. A disagreement is accepted only inside a decidable "
-         "syntactic class (Lean Spec/Agreement.lean, Spec.deviations) listed for that analyzer in known_findings.json; anything else is "
-         "shrunk on the AST and reported",
-    design_ref="DESIGN.md §5 C09, §2.2 (shape correspondence), §7",
-    note=TB + ". The level is translation_validation, not proof: the theorems are the (trivial but honest) reduction and shape facts; the "
-         "universal claim over statements x dialect pairs rests on the per-program validation, bounded by the generator (harness/gensql.py "
-         "defines 'core SQL': SELECT with joins/comma lists/derived tables/subqueries/CASE/functions/windows/casts, set operations, WITH, "
-         "INSERT..query, CTAS, CREATE VIEW over keyword-free identifiers; column `d` is replaced because snowflake reads it as a date "
-         "part). Trusted: sqlfluff/sqlparse as black boxes, the normalisation filter and the allow-list in harness/c09.py, PYTHONHASHSEED "
-         "fixed by ./check. Known findings on the unchanged tree: K1 clickhouse IN-subquery parsed as tuple, K2 exasol CREATE VIEW target "
-         "type, K3 impala CTAS statement type unclaimed, K4 oracle CASE..END alias without AS; legacy analyzer classes L1-L6, L8 and the "
-         "C01 classes D2/D3/D4 (there the legacy analyzer is the one that is right). The class predicates over-approximate the defects.",
-    technique="differential translation validation (dialect x dialect x legacy analyzer on Lean-rendered generated statements) + tree-shape "
-              "correspondence against a Lean-defined shape + Lean proof of the agreement reduction",
-)
-
 NOT_YET = "machinery not built yet (build phase in progress, see DESIGN.md §9)"
 
 
